@@ -148,6 +148,7 @@ func TestC05(t *testing.T) {
 		c := g.Config()
 		a := ref.Analyse(c)
 		cc := cfgCase{C: c, Labels: []string{tag}}
+		cc.Flags.IgnoreMissingServices = g.Dangling // undefined references are there on purpose: the scope rule must not care
 		spec, err := singleFile(c, cfg.Style{}, cc.Flags)
 		if err != nil {
 			col.Exclude("serialiser-self-check")
@@ -208,6 +209,12 @@ func TestC05(t *testing.T) {
 					g = gen.EdgeGraph(n, edges, scopes)
 					g.TodoSinks = true
 					verdict(t, g, fmt.Sprintf("exh:n=%d:todo-sinks", n))
+					// and with references to undefined services before, between and after the defined names, the missing-services rule switched off
+					if sc%4 == kind%4 {
+						g = gen.EdgeGraph(n, edges, scopes)
+						g.Dangling = true
+						verdict(t, g, fmt.Sprintf("exh:n=%d:undefined-references-ignored", n))
+					}
 				}
 			}
 		}
